@@ -260,12 +260,13 @@ theorem step_query {cfg : Cfg} {st : St} {lead key trail n : Bytes} {sep : Sep}
   rw [htext, step_header cfg st hlead hkey hsep hrest, findOption_of_lookup hlk]
   simp [hq, applyItem, findOption_of_lookup hlk]
 
-/-- **an unknown key** (error handler that returns) -/
-theorem step_unknown {cfg : Cfg} {st : St} {lead key pre trail n : Bytes} {eq : Bool}
-    (hlead : Blank lead) (hwf : (Item.unknown key pre eq).WF cfg) (hthrow : cfg.throwing = false)
+/-- **an unknown key**: `HandleUnknownOption` is called and, if it returns, parsing goes on after
+the optional `=` -/
+theorem step_unknown_general {cfg : Cfg} {st : St} {lead key pre trail n : Bytes} {eq : Bool}
+    (hlead : Blank lead) (hwf : (Item.unknown key pre eq).WF cfg)
     (htrail : Blank trail) (hn : StartsItem n) (hend : trail = [] → n = []) :
     step cfg (lead ++ ((Item.unknown key pre eq).render ++ (trail ++ n))) st =
-      .cont n (applyItem cfg (.unknown key pre eq) st) := by
+      reportError cfg (.unknown key) n st := by
   obtain ⟨⟨hkey, _⟩, hpre, hlk⟩ := hwf
   let p : Sep := if eq then { pre := pre, eq := true, post := trail } else { pre := pre ++ trail, eq := false, post := [] }
   have hp : p.WF := by
@@ -280,6 +281,13 @@ theorem step_unknown {cfg : Cfg} {st : St} {lead key pre trail n : Bytes} {eq : 
   have htext : lead ++ ((Item.unknown key pre eq).render ++ (trail ++ n)) = lead ++ (key ++ (p.render ++ n)) := by
     cases eq <;> simp [Item.render, Sep.render, p]
   rw [htext, step_header cfg st hlead hkey hp hrest, findOption_none hlk]
+
+theorem step_unknown {cfg : Cfg} {st : St} {lead key pre trail n : Bytes} {eq : Bool}
+    (hlead : Blank lead) (hwf : (Item.unknown key pre eq).WF cfg) (hthrow : cfg.throwing = false)
+    (htrail : Blank trail) (hn : StartsItem n) (hend : trail = [] → n = []) :
+    step cfg (lead ++ ((Item.unknown key pre eq).render ++ (trail ++ n))) st =
+      .cont n (applyItem cfg (.unknown key pre eq) st) := by
+  rw [step_unknown_general hlead hwf htrail hn hend]
   simp [reportError, hthrow, applyItem, addErr]
 
 /-- **a value given to a flag** (error handler that returns): the value token is skipped -/
